@@ -12,6 +12,7 @@ import OFV.Proofs.C09Parity
 import OFV.Proofs.C09Parse
 import OFV.Proofs.C09Inter
 import OFV.Proofs.C09Bk3
+import OFV.Proofs.C09IntMul
 
 namespace OFV.C09
 open OFV.Model.C09 OFV.Spec.C09
@@ -185,6 +186,19 @@ theorem concat_valid (a f c : Code) (v : List Nat) (h : a.imulCode f = .ok c) (h
 theorem append_valid (a b c : Code) (va vb : List Nat) (h : a.iadd b = .ok c) (ha : Shaped a)
     (hlen : va.length = a.nm) (hva : ValidOn a va) (hvb : ValidOn b vb) : ValidOn c (va ++ vb) :=
   append_valid' a b c va vb h ha hlen hva hvb
+
+/-- `a + b` and `a * f` of well-shaped codes are well shaped (so the validity theorems compose
+over code expressions). -/
+theorem append_concat_shaped (a b c : Code) (ha : Shaped a) (hb : Shaped b) :
+    (a.iadd b = .ok c → Shaped c) ∧ (a.imulCode b = .ok c → Shaped c) :=
+  ⟨fun h => append_shaped' a b c h ha hb, fun h => concat_shaped' a b c h ha hb⟩
+
+/-- `k * code` (`k ≥ 1`, numpy or Python integer) is well shaped and valid on every concatenation
+of `k` vectors on which the code is valid: the `k`-fold product domain. -/
+theorem int_mul_valid (a : Code) (ha : Shaped a) (m : Nat) (c : Code)
+    (h : a.imulInt ((m + 1 : Nat) : Int) = .ok c) (vs : List (List Nat)) (hvs : vs.length = m + 1)
+    (hv : ∀ v ∈ vs, v.length = a.nm ∧ ValidOn a v) : ValidOn c vs.flatten ∧ Shaped c :=
+  int_mul_valid' a ha m c h vs hvs hv
 
 /-- A code object built by `BinaryCode.__init__` from a well-shaped matrix satisfies `Shaped`. -/
 theorem init_shaped (enc : Mat) (nq nm : Nat) (dec : List Poly) (c : Code)
